@@ -367,4 +367,105 @@ func TestAllOfOrder(t *testing.T) {
 	})
 }
 
+// A type added to another type under a name the root defines itself: whatever that inner definition
+// means inside the type it was added to, a reference written in the ROOT text means the root's own
+// type of that name.
+const chkShadow = "inner-type-does-not-rebind-the-root"
+
+type ShadowCase struct {
+	Spec lib.Spec `json:"spec"`
+	Good []string `json:"documents_of_which_one_must_be_accepted"`
+	Bad  []string `json:"documents_that_must_be_rejected"`
+}
+
+func init() {
+	run.RegisterReplay(chkShadow, func(t run.TB, raw json.RawMessage) {
+		var c ShadowCase
+		if err := json.Unmarshal(raw, &c); err != nil {
+			t.Fatalf("bad case: %v", err)
+		}
+		checkShadow(t, c)
+	})
+}
+
+func checkShadow(t run.TB, c ShadowCase) {
+	s, add := lib.Build(c.Spec)
+	cr := lib.Check(s)
+	if add.Panic != "" || cr.Panic != "" {
+		run.Fail(t, chkShadow, c, "panic: add=%v check=%v", add, cr)
+	}
+	if !add.OK || !cr.OK {
+		run.Fail(t, chkShadow, c, "Check rejects the schema: add=%v check=%v", add, cr)
+	}
+	any := false
+	var last lib.Res
+	for _, d := range c.Good {
+		last = lib.Validate(s, []byte(d))
+		any = any || last.OK
+	}
+	if !any {
+		run.Fail(t, chkShadow, c, "the root's own reference is satisfied in each of %v (the inner part is written once for either reading of the inner name), yet all are rejected; last: %v", c.Good, last)
+	}
+	for _, d := range c.Bad {
+		if v := lib.Validate(s, []byte(d)); v.OK {
+			run.Fail(t, chkShadow, c, "document %s violates the root's own type of the shadowed name but is accepted", d)
+		}
+	}
+}
+
+func TestInnerTypeDoesNotRebindRoot(t *testing.T) {
+	run.SkipIfReplaying(t)
+	defer run.Done(t, chkShadow)
+	rapid.Check(t, func(t *rapid.T) {
+		// the root's @x is a number, the @x added to @p a string (or the other way round)
+		rootX, innerX := "1 // {min: 0}", "\"s\" // {minLength: 1}"
+		okB, badB, inA := "5", "\"str\"", []string{"7", "\"str\""}
+		if rapid.Bool().Draw(t, "swap") {
+			rootX, innerX = innerX, rootX
+			okB, badB = badB, okB
+		}
+		// @p needs something the root does not know yet for its table to be looked at: an or rule
+		// with rule sets, or one more inner type
+		pText := rapid.SampledFrom([]string{
+			"{\n  \"a\": @x,\n  \"o\": 1 // {or: [{type: \"integer\"}, {type: \"string\"}]}\n}",
+			"{\n  \"a\": @x,\n  \"o\": @only\n}",
+			"{\n  \"a\": @x, // {optional: true}\n  \"o\": 1 // {or: [{type: \"integer\", min: 0}, \"null\"]}\n}",
+		}).Draw(t, "pText")
+		inner := []lib.Named{{Name: "@x", Text: innerX}}
+		if strings.Contains(pText, "@only") {
+			inner = append(inner, lib.Named{Name: "@only", Text: "1"})
+		}
+		if rapid.Bool().Draw(t, "innerOrder") {
+			inner[0], inner[len(inner)-1] = inner[len(inner)-1], inner[0]
+		}
+		types := []lib.Named{{Name: "@x", Text: rootX}, {Name: "@p", Text: pText, Inner: inner, InnerLate: rapid.Bool().Draw(t, "late")}}
+		if rapid.Bool().Draw(t, "typeOrder") {
+			types[0], types[1] = types[1], types[0]
+		}
+		root := rapid.SampledFrom([]string{"{\n  \"b\": @x,\n  \"p\": @p\n}", "{\n  \"p\": @p,\n  \"b\": @x\n}", "{\n  \"b\": [@x],\n  \"p\": @p // {optional: true}\n}",
+			"{ // {allOf: \"@p\"}\n  \"b\": @x\n}"}).Draw(t, "root")
+		inherits := strings.Contains(root, "allOf")
+		b := func(v string) string {
+			if strings.Contains(root, "[@x]") {
+				return "[" + v + "]"
+			}
+			return v
+		}
+		c := ShadowCase{Spec: lib.Spec{Schema: root, Types: types}}
+		for _, a := range inA {
+			if inherits {
+				// the root inherits the properties of @p instead of having a property of that type
+				c.Good = append(c.Good, "{\"b\":"+b(okB)+",\"a\":"+a+",\"o\":1}")
+				c.Bad = append(c.Bad, "{\"b\":"+b(badB)+",\"a\":"+a+",\"o\":1}")
+				continue
+			}
+			c.Good = append(c.Good, "{\"b\":"+b(okB)+",\"p\":{\"a\":"+a+",\"o\":1}}")
+			c.Bad = append(c.Bad, "{\"b\":"+b(badB)+",\"p\":{\"a\":"+a+",\"o\":1}}")
+		}
+		checkShadow(t, c)
+		run.Eval(chkShadow, true, fmt.Sprint(c.Spec))
+		run.Sample(chkShadow, c)
+	})
+}
+
 func TestReplay(t *testing.T) { run.TestReplay(t) }
